@@ -1,4 +1,5 @@
 import PkgModel.Specifier
+import PkgModel.Spec.Admits
 /-! driver operations for the specifier model -/
 namespace DriverSpec
 open Py V S
@@ -85,8 +86,35 @@ def opCanon : List String → String
     | none => "bad-arg"
   | _ => "bad-op"
 
+/-- reference semantics: `s.spec.admits clause candidate` = `Pep440.admits` on the parsed structures -/
+def opAdmits : List String → String
+  | [a, c] => match decS a, decS c with
+    | some s, some cs => (match parseSpec s with
+      | none => "err InvalidSpecifier"
+      | some sp =>
+        match scan cs with
+        | none => "raw InvalidVersion"
+        | some cv =>
+          match Pep440.readClause sp with
+          | none => "unreadable-clause"
+          | some (v, wild) => encB (Pep440.admits sp.op v wild sp.ver cv))
+    | _, _ => "bad-arg"
+  | _ => "bad-op"
+
+/-- `spec.clause s`: does `Specifier(s)` parse, and is what it stores a clause the reference semantics can read
+(`Pep440.readClause`, the hypothesis of theorem `C03.contains_eq_spec`)?  `ok <wildcard?>` -/
+def opClause : List String → String
+  | [a] => match decS a with
+    | some s => (match parseSpec s with
+      | none => "err InvalidSpecifier"
+      | some sp => match Pep440.readClause sp with
+        | none => "unreadable-clause"
+        | some (_, wild) => "ok " ++ encB wild)
+    | none => "bad-arg"
+  | _ => "bad-op"
+
 def ops : List (String × (List String → String)) :=
-  [ ("spec.parse", opParse), ("spec.pre", opPre), ("spec.contains", opContains), ("spec.filter", opFilter),
+  [ ("s.spec.admits", opAdmits), ("spec.clause", opClause), ("spec.parse", opParse), ("spec.pre", opPre), ("spec.contains", opContains), ("spec.filter", opFilter),
     ("spec.split", opSplit), ("spec.pad", opPad), ("spec.canon", opCanon) ]
 
 end DriverSpec
